@@ -538,10 +538,13 @@ SPECS["C16"] = {
                    "the context (tilinna clock.Mock, a sleep moves the clock), and shutdown just before the flush or while an attempt is in flight (symbolic; New Relic: thorough tier): "
                    "callback exactly once, a non-nil error when some attempted batch was never accepted, none when nothing failed, every attempt of a batch carries the same body, no batch is retried once an attempt that began after the "
                    "retry window (30 s) has failed, SendMetricsAsync does not block (a blocked harness is a violation, replayed natively by time-out), every request buffer is back in the pool "
-                   "(unless shut down). The flusher's WaitGroup accounting over callbacks is exercised by C01's flushData entries.",
+                   "(unless shut down). CLOUDWATCH: the real SendMetricsAsync (buildMetricData, the 20-per-call loop in its goroutine) against a harness CloudwatchClient whose "
+                   "calls fail or not, 0..3 gauges and 0..2 timers (0..21 data, i.e. 0, 1 or 2 calls): callback exactly once, one error per failed call, 1..20 data per call, every datum once. "
+                   "The flusher's WaitGroup accounting over callbacks is exercised by C01's flushData entries.",
     "bounds": {"quick": "1..2 streams x 1..2 buffers, <= 3..5 connect/write operations per run (longer scripts are cut by an assumption), <= 3 rounds; rollover: 101 one-buffer streams, <= 4 dials, writes never fail; OTLP / influxdb / datadog / newrelic: <= 3 attempts in total, 1..2 batches, 0..2 free buffers",
                "thorough": "adds 2 streams x 2 buffers x 3 rounds with harness-owned time"},
-    "outside": ["cloudwatch: its client is the AWS SDK (reflection, request signing), not executable by the engine; NOT claimed", "compressed payloads of datadog / influxdb (the "
+    "outside": ["the AWS SDK behind cloudwatch's CloudwatchClient interface (the harness implements the interface; the backend has no retry logic of its own)", "stdout and null backends "
+                "(synchronous, no transport)", "compressed payloads of datadog / influxdb (the "
                 "harness runs them uncompressed; New Relic's gzip path runs for real in VerifC16_NewRelicKey / VerifC17_NewRelicRetryBody)", "the JSON text itself (stub)", "real scheduling: "
                 "one goroutine runs at a time and runs until it blocks; a counterexample that needs a select to prefer a particular ready case may not reproduce natively (the driver then "
                 "tries the other candidate paths to the same assertion and reports a CHECK-PROBLEM, exit 2, if none reproduces)"],
@@ -560,6 +563,8 @@ SPECS["C16"] = {
          "entries": {"quick": ["VerifC16_StatsDaemon1", "VerifC16_StatsDaemon2"]}, "reach": {"*": ["clean", "faulty"]}, "limits": {"quick": {"timeout": "600s"}}},
         {"pkg": "./pkg/backends/graphite", "harness": "pkg/backends/graphite", "mode": "machine",
          "entries": {"quick": ["VerifC16_Graphite1", "VerifC16_Graphite2"]}, "reach": {"*": ["clean", "faulty"]}, "limits": {"quick": {"timeout": "600s"}}},
+        {"pkg": "./pkg/backends/cloudwatch", "harness": "pkg/backends/cloudwatch", "mode": "machine",
+         "entries": {"quick": ["VerifC16_Cloudwatch"]}, "reach": {"*": ["clean", "failed", "two-calls", "empty"]}, "blocked_is_violation": True, "limits": {"quick": {"timeout": "600s"}}},
         {"pkg": "./pkg/backends/influxdb", "harness": "pkg/backends/influxdb", "mode": "machine",
          "entries": {"quick": ["VerifC16_Influx", "VerifC16_InfluxTwin"], "thorough": ["VerifC16_Influx", "VerifC16_InfluxFull", "VerifC16_InfluxTwin"]},
          "reach": {"VerifC16_Influx": ["clean", "all-failed", "partial-failure", "cancelled"], "VerifC16_InfluxFull": ["clean", "all-failed", "partial-failure", "cancelled"]},
